@@ -1172,6 +1172,32 @@ def oracle(hc, plan, res) -> list[str]:
 # --------------------------------------------------------------------------- generators
 
 def gen_hc(rng, size="small", fail=None):
+    if size == "twolevel":
+        # sharded save whose inner writers are parallel too: max_workers >= 3 * shards
+        shards = rng.choice([2, 2, 3])
+        per = [rng.choice([1, 2, 2, 3]) for _ in range(shards)]
+        unit = rng.choice([2, 3, 4])
+        cap = rng.choice([1, 2, 3, 4, 6, 1 << 20])
+        tensors = []
+        for p in per:
+            for _ in range(p):
+                tensors.append({"len": unit, "obj": len(tensors), "ext": False, "cbfail": False, "wfail": False})
+        # shard boundaries: every shard holds `p` tensors of `unit` bytes -> use the largest group as the limit
+        # (groups are cut greedily, so equal group sizes give exactly `shards` shards)
+        per = [max(per)] * shards
+        tensors = [{"len": unit, "obj": i, "ext": False, "cbfail": False, "wfail": False} for i in range(sum(per))]
+        if rng.random() < 0.4 and len(tensors) > 2:
+            tensors[-1]["obj"] = tensors[0]["obj"]          # a tensor object shared across shards
+        if fail if fail is not None else rng.random() < 0.35:
+            i = rng.randrange(len(tensors))
+            if rng.random() < 0.5:
+                tensors[i]["cbfail"] = True
+            else:
+                for t in tensors:
+                    if t["obj"] == tensors[i]["obj"]:
+                        t["wfail"] = True
+        return {"tensors": tensors, "max_workers": shards * rng.choice([3, 3, 4]), "cap": cap,
+                "max_shard": unit * per[0], "chunk": None, "tseed": rng.randrange(1 << 30)}
     if size == "tiny":
         n, mw = rng.choice([2, 2, 3]), 2
     elif size == "small":
@@ -1536,7 +1562,7 @@ def run(ck) -> None:
     for i in range(n_cfg):
         if col.failures and len(col.failures) > 3:
             break
-        hc = gen_hc(rng, "small" if i % 3 else "large")
+        hc = gen_hc(rng, ["large", "small", "twolevel", "small", "small", "twolevel"][i % 6])
         try:
             plan = col.plan(hc)
         except Exception as e:  # noqa: BLE001
@@ -1573,7 +1599,7 @@ def run(ck) -> None:
     soak_cfgs = 6 if not thorough else 60
     soak_runs = 12 if not thorough else 60
     for i in range(soak_cfgs):
-        hc = gen_hc(rng, "large")
+        hc = gen_hc(rng, "large" if i % 2 else "twolevel")
         plan = col.plan(hc)
         bad = soak(hc, plan, col.wd, rng, soak_runs)
         ck.count(soak_runs)
@@ -1615,7 +1641,7 @@ def search(ck, col) -> None:
     i = 0
     while time.time() < deadline:
         i += 1
-        hc = gen_hc(rng, rng.choice(["tiny", "small", "small", "large"]))
+        hc = gen_hc(rng, rng.choice(["tiny", "small", "small", "large", "twolevel"]))
         try:
             plan = col.plan(hc)
         except Exception:  # noqa: BLE001
